@@ -108,6 +108,8 @@ pub struct Ctx {
     pub only: Vec<String>,
     /// multiply the case counts (for calibration / ad-hoc deep runs)
     pub scale: f64,
+    /// bound on proptest shrink iterations (lower it for expensive checkers)
+    pub max_shrink: u32,
     pub violations: Vec<Value>,
     pub harness_errors: Vec<String>,
     pub subs: Vec<Value>,
@@ -139,6 +141,7 @@ impl Ctx {
             replay: None,
             only: Vec::new(),
             scale: 1.0,
+            max_shrink: 20_000,
             violations: Vec::new(),
             harness_errors: Vec::new(),
             subs: Vec::new(),
@@ -251,7 +254,7 @@ impl Ctx {
         let config = Config {
             cases,
             failure_persistence: None,
-            max_shrink_iters: 20_000,
+            max_shrink_iters: self.max_shrink,
             max_local_rejects: 65_536,
             max_global_rejects: 65_536,
             ..Config::default()
